@@ -1,6 +1,6 @@
 (* Correspondence entry point: one op name + arguments -> canonical observation.
    Extracted to OCaml (Extract.v) and driven by ocaml/driver.ml. *)
-From Ufw Require Import Base.Val Base.Bits Base.Errno Model.Crc Model.ByteBuffer Model.Endpoints Model.Varint Model.Ring Model.Slip Model.Lenp Model.Persist Model.BinFmt Gen.BfGen_LB.
+From Ufw Require Import Base.Val Base.Bits Base.Errno Model.Crc Model.ByteBuffer Model.Endpoints Model.Varint Model.Ring Model.Slip Model.Lenp Model.Persist Model.BinFmt Gen.BfGen_LB Model.RegTable.
 Local Open Scope string_scope.
 Local Open Scope N_scope.
 
@@ -339,7 +339,7 @@ Fixpoint ps_run (step : N -> N -> N) (st : pstore) (m : medium) (ops : list (N *
         match code with
         | 0 => let '(acc, m') := store step st m (gen_octets a (N.to_nat (p_dsize st))) in (ps_obs st m m' acc (VS "-"), m')
         | 1 => let '(acc, m') := store_part step st m (gen_octets a (N.to_nat (N.min c 64))) b c in (ps_obs st m m' acc (VS "-"), m')
-        | 2 => let '(acc, m') := validate step st m in (ps_obs st m m' acc (VS "-"), m')
+        | 2 => let '(acc, m') := Persist.validate step st m in (ps_obs st m m' acc (VS "-"), m')
         | 3 => let '(acc, d, m') := fetch st m in (ps_obs st m m' acc (match acc with PSuccess => VH d | _ => VS "-" end), m')
         | 4 => let '(acc, d, m') := fetch_part st m a b in (ps_obs st m m' acc (match acc with PSuccess => VH d | _ => VS "-" end), m')
         | 5 => let '(acc, m') := reset st m a in (ps_obs st m m' acc (VS "-"), m')
@@ -384,6 +384,97 @@ Definition run_bf (op : string) (a : list val) : list val :=
     end
   else [VS "unknown-op"].
 
+(* ---------------- register table (C01-C05) ---------------- *)
+Definition rtype_of (n : N) : rtype :=
+  match n with 0 => TU16 | 1 => TU32 | 2 => TU64 | 3 => TS16 | 4 => TS32 | 5 => TS64 | 6 => TF32 | _ => TF64 end.
+Definition rtype_n (t : rtype) : N :=
+  match t with TU16 => 0 | TU32 => 1 | TU64 => 2 | TS16 => 3 | TS32 => 4 | TS64 => 5 | TF32 => 6 | TF64 => 7 end.
+Definition rcheck_of (k a b : N) : rcheck :=
+  match k with 0 => CTrivial | 1 => CFail | 2 => CMin a | 3 => CMax a | 4 => CRange a b | _ => CCallback a end.
+Fixpoint mk_areas (l : list N) (words : list N) : list area :=
+  match l with
+  | base :: size :: flags :: kind :: r =>
+      {| a_base := base; a_size := size; a_readable := N.testbit flags 0; a_writeable := N.testbit flags 1;
+         a_skip := N.testbit flags 2; a_has_read := N.testbit kind 0; a_has_write := N.testbit kind 1;
+         a_is_mem := N.testbit kind 2; a_words := firstn (N.to_nat size) words;
+         a_first := 0; a_last := 0; a_count := 0 |} :: mk_areas r (skipn (N.to_nat size) words)
+  | _ => []
+  end.
+Fixpoint mk_entries (l : list N) : list entry :=
+  match l with
+  | ty :: def :: addr :: ck :: a :: b :: r =>
+      {| e_type := rtype_of ty; e_default := def; e_addr := addr; e_check := rcheck_of ck a b; e_touched := false |} :: mk_entries r
+  | _ => []
+  end.
+Definition acode_name (c : acode) : val :=
+  VS (match c with ASuccess => "SUCCESS" | AFailure => "FAILURE" | AUninit => "UNINITIALISED" | ANoEntry => "NOENTRY"
+              | ARange => "RANGE" | AInvalid => "INVALID" | AReadOnly => "READONLY" | AIoError => "IO_ERROR" end).
+Definition icode_name (c : icode) : val :=
+  VS (match c with ISuccess => "I_SUCCESS" | INoAreas => "I_NO_AREAS" | IAreaOrder => "I_AREA_INVALID_ORDER"
+              | IAreaOverlap => "I_AREA_ADDRESS_OVERLAP" | IEntryOrder => "I_ENTRY_INVALID_ORDER"
+              | IEntryOverlap => "I_ENTRY_ADDRESS_OVERLAP" | IEntryHole => "I_ENTRY_IN_MEMORY_HOLE"
+              | IEntryDefault => "I_ENTRY_INVALID_DEFAULT" end).
+Definition reg_dump (t : table) : list val :=
+  [vbool (t_init t); VL (map VN (List.concat (map a_words (t_areas t))));
+   VL (map (fun e => vbool (e_touched e)) (t_entries t))].
+Definition reg_links (t : table) : val :=
+  VL (map VN (List.concat (map (fun a => [a_first a; a_last a; a_count a]) (t_areas t)))).
+Definition accv (r : acc) : list val := [acode_name (fst r); VN (snd r)].
+(* success carries no address *)
+Definition accv' (r : acc) : list val :=
+  match fst r with ASuccess => [acode_name ASuccess; VS "-"] | _ => accv r end.
+
+Fixpoint reg_ops (fuel : nat) (t : table) (l : list N) : list val :=
+  match fuel with
+  | O => []
+  | S f =>
+      match l with
+      | code :: nargs :: r =>
+          let a := firstn (N.to_nat nargs) r in
+          let rest := skipn (N.to_nat nargs) r in
+          let g i := nth i a 0 in
+          let '(obs, t') :=
+            match code with
+            | 0 => let '(r0, t1) := reg_init t in
+                   ([icode_name (fst r0); (match fst r0 with ISuccess => VS "-" | _ => VN (snd r0) end);
+                     (match fst r0 with ISuccess => reg_links t1 | _ => VS "-" end)], t1)
+            | 1 => let '(r0, t1) := reg_setx t (g 0%nat) {| v_type := rtype_of (g 1%nat); v_bits := g 2%nat |} true in
+                   (* the property names the class only for the bad handle: refused + is-it-NOENTRY + storage *)
+                   ([match fst r0 with ASuccess => VS "SUCCESS" | ANoEntry => VS "NOENTRY" | AUninit => VS "UNINITIALISED" | _ => VS "REFUSED" end], t1)
+            | 2 => let '(r0, t1) := reg_setx t (g 0%nat) {| v_type := rtype_of (g 1%nat); v_bits := g 2%nat |} false in
+                   ([match fst r0 with ASuccess => VS "SUCCESS" | ANoEntry => VS "NOENTRY" | AUninit => VS "UNINITIALISED" | _ => VS "REFUSED" end], t1)
+            | 3 => let '(r0, v) := reg_get t (g 0%nat) in
+                   ((accv' r0 ++ (match fst r0, v with
+                                 | ASuccess, Some v => [VN (rtype_n (v_type v)); VN (v_bits v)]
+                                 | _, _ => [VS "-"; VS "-"] end))%list, t)
+            | 4 => let '(r0, t1) := reg_bitop false t (g 0%nat) {| v_type := rtype_of (g 1%nat); v_bits := g 2%nat |} in
+                   ([match fst r0 with ASuccess => VS "SUCCESS" | ANoEntry => VS "NOENTRY" | AUninit => VS "UNINITIALISED" | _ => VS "REFUSED" end], t1)
+            | 5 => let '(r0, t1) := reg_bitop true t (g 0%nat) {| v_type := rtype_of (g 1%nat); v_bits := g 2%nat |} in
+                   ([match fst r0 with ASuccess => VS "SUCCESS" | ANoEntry => VS "NOENTRY" | AUninit => VS "UNINITIALISED" | _ => VS "REFUSED" end], t1)
+            | 6 => let '(r0, t1) := block_write t (g 0%nat) (g 1%nat) (skipn 2 a) in (accv' r0, t1)
+            | 7 => let '(r0, ws) := block_read t (g 0%nat) (g 1%nat) in
+                   ((accv' r0 ++ [match fst r0 with ASuccess => VL (map VN ws) | _ => VS "-" end])%list, t)
+            | 8 => let '(r0, t1) := sanitise t in ([match fst r0 with ASuccess => VS "SUCCESS" | AUninit => VS "UNINITIALISED" | _ => VS "REFUSED" end], t1)
+            | 9 => let '(r0, hs) := foreach_in t (g 0%nat) (g 1%nat) (map (fun x => (Z.of_N x - 1)%Z) (skipn 2 a)) in
+                   ((accv' r0 ++ [VL (map VN hs)])%list, t)
+            | _ => (* out-of-band corruption: area index, offset, word *)
+                   match nth_error (t_areas t) (N.to_nat (g 0%nat)) with
+                   | Some ar => ([VS "corrupt"], set_area t (N.to_nat (g 0%nat)) (area_write ar (g 1%nat) [g 2%nat]))
+                   | None => ([VS "corrupt"], t)
+                   end
+            end in
+          (obs ++ reg_dump t' ++ reg_ops f t' rest)%list
+      | _ => []
+      end
+  end.
+
+Definition run_reg (op : string) (a : list val) : list val :=
+  if String.eqb op "reg.run" then
+    let t := {| t_init := false; t_during := false; t_be := argB 0 a;
+                t_areas := mk_areas (argLN 1 a) (argLN 2 a); t_entries := mk_entries (argLN 3 a) |} in
+    reg_ops (S (length (argLN 4 a))) t (argLN 4 a)
+  else [VS "unknown-op"].
+
 Definition prefix_of (p s : string) : bool := String.prefix p s.
 
 Definition dispatch (op : string) (a : list val) : list val :=
@@ -396,4 +487,5 @@ Definition dispatch (op : string) (a : list val) : list val :=
   else if prefix_of "lenp." op then run_lenp op a
   else if prefix_of "ps." op then run_ps op a
   else if prefix_of "bf." op then run_bf op a
+  else if prefix_of "reg." op then run_reg op a
   else [VS "unknown-op"].
